@@ -4,7 +4,8 @@ package cluster
 // bounded, non-blocking goroutine pool (config max_concurrency), and a task submitted while the pool is full is
 // refused. For every scenario the operation is run on core instances whose pool has 1, 2, 3 ... workers, on a
 // pre-state built by an instance with a large pool (same store, same fake engines). With too small a pool the
-// operation never returns (a refused task is never waited for successfully): those runs are skipped. The first two
+// operation never returns (a refused task is never waited for successfully): of those runs only the lock
+// acquisitions made before it got stuck are judged. The first two
 // sizes at which it does return are judged like any other run (Trace_Cluster): the refusals that remain there are
 // the ones the code tolerates, and what it does instead must still keep the lock order, the bookkeeping and the
 // truthfulness of the results.
@@ -61,9 +62,17 @@ func TestClusterPool(t *testing.T) {
 			g.Free = false
 			if opEvs[len(opEvs)-1]["class"] == "hang" {
 				// too small a pool for this operation: whatever it holds is what a dead instance would hold
+				// (the lock acquisitions it made before it got stuck are real ones: they are judged, its state is not)
 				hangs++
+				run++
+				evs := []Event{pre, opEvs[0]}
+				evs = append(evs, g.Take()...)
+				AnnotateLocks(evs)
+				out.Emit(Event{"ev": "Run", "run": run, "mode": "pool-stuck", "pool": size, "store": StoreName(), "failAt": 0, "crashAt": 0, "scenario": in.Scenario, "ids": b.IDs})
+				for _, ev := range evs {
+					out.Emit(ev)
+				}
 				env.Locks.ReleaseAll()
-				g.Take()
 				continue
 			}
 			env.Quiesce(5 * time.Second)
